@@ -45,7 +45,7 @@ CFG = {
 @st.composite
 def _scn(draw):
     scn = draw(st.one_of(hist.scenarios(CFG), hist.scenarios(dict(CFG, final=["create_sf"]))))
-    extra = draw(st.sampled_from([None, None, None, "prefix", "prefix", "big", "twins"]))
+    extra = draw(st.sampled_from([None, None, None, "prefix", "prefix", "big", "twins", "deep_sf"]))
     if extra == "prefix":
         # a nested history whose folder name is a prefix of a sibling folder / file that has no history of its own
         base = draw(st.sampled_from(["Clips", "s", "A", "Reel1"]))
@@ -62,6 +62,12 @@ def _scn(draw):
             pre = [{"op": "create", "root": r, "formats": ["md5"], "flags": []} for r in draw(st.permutations(["A001", "B001"]))]
             sel = draw(st.sampled_from([["A001/Clips/clip001.mov", "B001/Clips/clip001.mov"], ["B001", "A001"], ["A001/Clips", "B001/Clips/clip001.mov"]]))
             scn["steps"] = pre + scn["steps"] + [{"op": "create_sf", "root": "", "formats": draw(gen.formats(2)), "flags": [], "sf": sel}]
+    elif extra == "deep_sf":
+        # -sf naming a folder with several levels below it (optionally with a nested history inside)
+        if "dsf" not in hist.top_names_used(scn):
+            scn["tree"]["dsf"] = {"l1": {"l2": {"l3": {"deep.mov": "d3"}, "mid.mov": "d2"}, "up.mov": "d1"}, "top.mov": "d0"}
+            pre = [{"op": "create", "root": "dsf/l1/l2", "formats": ["md5"], "flags": []}] if draw(st.booleans()) else []
+            scn["steps"] = pre + scn["steps"] + [{"op": "create_sf", "root": "", "formats": draw(gen.formats(2)), "flags": [], "sf": [draw(st.sampled_from(["dsf", "dsf/l1", "dsf"]))]}]
     elif extra == "big":
         # one file beyond the 1 MiB read chunk, size not a multiple of it
         if "big.bin" not in hist.top_names_used(scn):
